@@ -530,6 +530,24 @@ def check_forwarders(rep, http, cfg):
         expected = {f.name}
         if f.name == 'as_mut' or f.name == 'take_middleware':
             continue
+        # ... on EVERY path: no return of the method is reachable without the forwarding call (a setter that skips the call when it
+        # judges the new value "the same" drops what the app said — seeded: set_content_type comparing Mime::essence, which ignores the
+        # charset / boundary parameters). Methods returning a Result may leave early on their error path only.
+        skipped = False
+        if len(muts) == 1 and muts[0][0] is f:
+            mb = muts[0][1]
+            free = [r_ for r_ in f.return_blocks() if r_ in f.reachable([0], removed_blocks=[mb])]
+            if free and not norm(f.locals[0]).startswith('core::result::Result'):
+                skipped = True
+            elif free:
+                # the early exits of a fallible setter must be error returns: an Ok built without the call is a skipped write
+                for bb2, i2, s2 in f.stmts('assign'):
+                    if s2['rv']['k'] == 'agg' and s2['rv'].get('variant') == 'Ok' and norm(s2['rv'].get('adt') or '') == 'core::result::Result' and \
+                            s2['d']['l'] == 0 and bb2 in f.reachable([0], removed_blocks=[mb]):
+                        skipped = True
+        rep.expect('R14.e', not skipped, key + '|on-every-path', 'the forwarding call is made on every (non-error) path',
+                   'crux_http::Request::%s can return without calling http_types::Request::%s: what the app set is silently not applied for '
+                   'some values' % (f.name, f.name), site=key + '|on-every-path@' + cfg)
         rep.expect('R14.e', set(names) <= expected and len(names) == 1, key, 'forwards to http_types::Request::%s only' % f.name,
                    'crux_http::Request::%s changes the wrapped request through %s: besides forwarding, it adds, removes or replaces something the '
                    'app described (e.g. a Content-Type set before the body)' % (f.name, sorted(names)), site=key + '@' + cfg)
